@@ -42,6 +42,9 @@ BIG_COVERS = [
     [list(range(12)), [0, 12], [1, 12, 13, 14]],                 # sizes {2, 4, 12}
     # a hub that lies in 300 edge-cliques and one triangle (per-vertex counts beyond 255)
     [[0, i] for i in range(1, 301)] + [[0, 301, 302]],
+    # few vertices, many cliques: all 406 triangles through vertex 0 on 30 vertices plus a path of edges (a count
+    # is bounded by the number of cliques, not by the number of vertices)
+    [[0, a, b] for a in range(1, 30) for b in range(a + 1, 30)] + [[i, i + 1] for i in range(0, 29)],
 ]
 
 
@@ -115,8 +118,8 @@ def check_cover(cover, how):
             return ("C08:table-values", f"P{k} = {jdd[k]}, expected {p}")
     # wiring: sample and generate with clique motifs of the reported sizes (default RNG resolution)
     N = len({v for c in cover for v in c})
-    if N > 60:
-        return None   # the wiring run is a smoke test; skipped for the large hub cover
+    if N > 60 or len(cover) > 200:
+        return None   # the wiring run is a smoke test; skipped for the large hub covers
 
     def body():
         jds = obj.sample_jds_from_jdd(N)
